@@ -106,7 +106,8 @@ CopyAl(a) == /\ Len(hist) < D /\ Len(als) < MaxAls
 \* anything and owns a new target (its aligned source) - until the next set_target, which must make it a fresh fit again
 \* "whatever happened before" (the model keeps no trace of the perturbed parameters: they must not matter)
 Perturb(a) == /\ Len(hist) < D /\ WithPerturb /\ ~IsSymCfg(als[a].cfg) /\ ~als[a].pert
-              /\ als[a].cfg \notin {"rotation", "rotation_m"}              \* (2-D rotations have no parameter vector in menpo)
+              \* (2-D rotations have no parameter vector in menpo: their parameters are overwritten through set_rotation_matrix -
+              \*  with an improper matrix, the worst case for the "rotations are proper unless mirroring was allowed" clause)
               /\ als' = [als EXCEPT ![a].pert = TRUE, ![a].tobj = 0, ![a].pval = 0]
               /\ UNCHANGED vals
               /\ hist' = Append(hist, Rec("perturb", a, 0, 0, ""))
